@@ -1,4 +1,5 @@
 """C09 — grouping and counting notes follow the documented rules for every stream."""
+import os
 import itertools
 from fractions import Fraction
 import core, gen
@@ -86,8 +87,11 @@ def run(ctx, for_c10=False):
     # small grid: exhaustive in the thorough tier, a seeded slice in the quick tier
     kinds = ["0", "1", "2", "4" if ctx.seed % 2 == 0 else "M", "3"]
     total = 5 ** 8
-    if ctx.thorough:
+    if ctx.thorough and not (for_c10 and os.environ.get("VERIF_FULL_GRID") != "1"):
         codes = range(total); res.exhaustive = True
+    elif ctx.thorough:
+        # C10 re-uses these streams and doubles the work per stream: every 6th code (rotating with the seed) unless VERIF_FULL_GRID=1
+        codes = range(ctx.seed % 6, total, 6)
     else:
         step = 97 if not ctx.widen else 13
         codes = range(ctx.seed % step, total, step)
